@@ -142,7 +142,7 @@ def evaluate(ctx, rows, term_of, imports, nshards, describe, codes, limit=40):
     return bad
 
 
-def gen_and_prove(ctx, spec_vo, prop_v):
+def gen_and_prove(ctx, spec_vo, prop_v, more=()):
     """translator + model build + proof build.  coq/Gen is shared by all checks: when another check, run against a
     DIFFERENT source tree (scratch worktrees during development), regenerates it between our translator run and our
     Coq build, the build sees foreign wiring.  Detect that (the generated file changed under us) and retry."""
@@ -159,7 +159,7 @@ def gen_and_prove(ctx, spec_vo, prop_v):
         gen_ok = ctx.gen()
         snap = read()
         model_ok = gen_ok and ctx.coq_model([spec_vo])
-        proof_ok = gen_ok and ctx.coq_proofs(prop_v)
+        proof_ok = gen_ok and ctx.coq_proofs(prop_v, more=more)
         if (model_ok and proof_ok) or read() == snap:
             break
         del ctx.broken[nb:]
